@@ -34,6 +34,10 @@ func (c14) Gen(r *rand.Rand, tier string, run int) *core.Case {
 	c.Params["clients"] = clients
 	c.Params["conns"] = 1 + r.IntN(clients)
 	c.Params["subscribers"] = 1 + r.IntN(2)
+	if r.IntN(3) == 0 {
+		c.Params["resubscribed"] = 1 + r.IntN(3)
+		c.Params["resubscribed_lifo"] = r.IntN(2)
+	}
 	c.Params["instrument"] = []int{0, 0, 0, 1, 2, 3}[r.IntN(6)]
 	if r.IntN(4) == 0 {
 		c.Params["unset_level"] = 1
@@ -254,6 +258,32 @@ func (c14) Run(c *core.Case, env *core.Env) {
 		if err != nil {
 			env.Violate("setup/proxy", "%v", err)
 			return
+		}
+		// (the subscription judged may be the connection's third: two earlier
+		// ones, overlapping, were cancelled one after the other before it)
+		if pre := c.P("resubscribed", 0); pre > 0 {
+			var cancels []func()
+			for k := 0; k < pre; k++ {
+				cancel, pch, err := p.SubscribeLevel()
+				if err != nil {
+					env.Violate("setup/subscribe", "%v", err)
+					return
+				}
+				go func() {
+					for range pch {
+					}
+				}()
+				cancels = append(cancels, cancel)
+			}
+			if c.P("resubscribed_lifo", 0) == 1 {
+				for k := len(cancels) - 1; k >= 0; k-- {
+					cancels[k]()
+				}
+			} else {
+				for _, cancel := range cancels {
+					cancel()
+				}
+			}
 		}
 		_, ch, err := p.SubscribeLevel()
 		if err != nil {
